@@ -86,6 +86,13 @@ def gen_loop_cases(ctx, n):
              "mu": [r.randint(-16, 16) / 4 for _ in range(dim)], "init": [r.randint(-8, 8) / 4 + 0.3 for _ in range(dim)]}
         kappa = r.choice([1.0, 1e2, 1e4, 1e6])
         c["prec"] = [kappa ** (r.random() - 0.5) for _ in range(dim)]
+        if r.random() < 0.4:
+            # a posterior far from the origin relative to its width (variance estimates must not be
+            # computed as E[x^2] - E[x]^2)
+            off = r.choice([1e3, 1e4])
+            c["mu"] = [r.choice([-1, 1]) * off / math.sqrt(p) * (1 + r.random()) for p in c["prec"]]
+            c["init"] = [m + 0.3 / math.sqrt(p) for m, p in zip(c["mu"], c["prec"])]
+            c["far_mean"] = off
         if preset == "lowrank_nuts" and dim >= 2 and dim <= 5 and r.random() < 0.6:
             # correlated Gaussian: precision = A A^T + I
             A = [[r.choice([-1, 0, 0.5, 1]) for _ in range(dim)] for _ in range(dim)]
@@ -195,7 +202,7 @@ def run(ctx):
                 ctx.samples.append({"op": c["op"], "inputs": {k: c.get(k) for k in ("x", "y", "z", "w", "a", "fill")}, "element": i, "result": impl})
     ctx.oblig("correspondence-estimator-kernels", ndiff == 0, "%d elements differ" % ndiff)
     # (2) closed loop on Gaussian targets
-    lc = gen_loop_cases(ctx, 24 if quick else 200)
+    lc = gen_loop_cases(ctx, 40 if quick else 300)
     louts, lerrs = run_harness_parallel("schedule", lc)
     ctx.oblig("harness-run-loop", not lerrs and len(louts) == len(lc), "\n".join(lerrs)[:1500])
     for c in lc:
